@@ -131,8 +131,14 @@ class Script:
         elif k == 3:
             self.peer(5, 0, struct.pack(">I", r.choice([1, 2, 3, 10, 50, 100, 1000, 0xFFFFFFFF, 0])))
         elif k == 4:
+            old_cs = self.w.cs
             self.pending += self.w.set_chunk_size(r.choice([1, 2, 64, 128, 200, 4096, 65536]))
-            self.flush()
+            if old_cs > 4096 or r.chance(1, 2):          # (the model needs minutes for input calls of hundreds of KB)
+                self.flush()
+            else:
+                # the announcement and a message longer than the OLD chunk size in the same input call: the new size must already be
+                # in force when the next message is read
+                self.peer(r.choice([22, 255, 19]), 0, r.bytes(old_cs + r.range(1, 300)), sep=True)
         elif k == 5:
             self.peer(20, 0, command(r.choice(["onBWDone", "_checkbw", ""]), 0, NULL, [Num(8192)]))
         elif k == 6:
@@ -179,9 +185,14 @@ def gen_script(rng):
         else:
             s.publish()
             s.create_result()
+            if not clean and r.chance(1, 3):
+                s.media()            # audio / video / metadata from the server on the stream the client is about to publish on: never raised
             s.status("NetStream.Publish.Start" if (clean or r.chance(3, 4)) else None)
             for _ in range(r.range(0, 8)):
-                s.misc_call() if r.chance(3, 4) else s.control()
+                if not clean and r.chance(1, 6):
+                    s.media()
+                else:
+                    s.misc_call() if r.chance(3, 4) else s.control()
             if r.chance(2, 3):
                 s.app("stoppub %d" % s.tick())
                 if r.chance(1, 2):
@@ -216,6 +227,22 @@ def ack_script(rng):
     return "client " + " | ".join(s.ops)
 
 
+def big_call_script(rng):
+    """one input call larger than 2^16 bytes under a window the call crosses: the count is the call's size, whatever its size"""
+    s = Script(rng, True)
+    s.ops.append("cfg 76 2000 2500000 4096 -")
+    w = rng.choice([70000, 100000, 131072, 200000])
+    s.peer(5, 0, struct.pack(">I", w))
+    s.pending += s.w.set_chunk_size(65536)
+    s.flush()
+    data = b""
+    for _ in range(rng.range(1, 3)):
+        data += s.w.message(rng.choice([22, 255]), 0, rng.below(1000), rng.bytes(rng.choice([66000, 70000, 100000])))
+    s.ops.append("in %d %s %s" % (s.tick(), rng.choice(["w", "k65535", "k65536", "k70000"]), hexs(data)))
+    s.peer(4, 0, struct.pack(">HI", 7, 5))
+    return "client " + " | ".join(s.ops)
+
+
 def fuzz_script(rng, tier):
     """network input no well-behaved peer sends: a generated script whose peer bytes are mutated, truncated or random"""
     from gens.chunk import mutate
@@ -246,6 +273,8 @@ def generate(rng, tier):
         yield gen_script(rng)
     for _ in range(n // 4):
         yield ack_script(rng)
+    for _ in range(3 if tier == "quick" else 40):
+        yield big_call_script(rng)
 
 
 def nontrivial(case):
